@@ -22,10 +22,12 @@ pub fn gens(cx: &Cx) -> Vec<Gen> {
         Gen { name: "runs", count: cx.n(600, 20_000), exhaustive: false },
         Gen { name: "bigfrag", count: 21, exhaustive: true },
         Gen { name: "maxreuse", count: 48, exhaustive: true },
+        Gen { name: "samectx", count: 64, exhaustive: true },
+        Gen { name: "statefulcrc", count: cx.n(3_000, 200_000), exhaustive: false },
     ]
 }
 
-pub const RULE: &str = "lattice: every (PDU size, buffer size) pair of the size lattice L x L (L = 0..16, 25..27, 100, 255..257, 1000, 4080..4100, 8190..8195, 16384, 32767, 32768, 65520..65540, 69999, 70000) x 6 label cases (6-byte, 3-byte, broadcast, explicit re-use, 6-byte primed, 3-byte primed) for the first call, then up to 20 continuation calls with buffers drawn from L, 0..32 and exact-fit sizes; fragpos: encap_frag on every context position 0..=len+2 of PDUs of 0..=64 bytes x every buffer size 0..=40 and {100,4097,4098,70000}, and boundary positions of lattice-sized PDUs x L; ptypes: protocol types (all 65536 in thorough) x labels incl. zero and explicit re-use; ext: seeded extension chains of 0..4 entries incl. illegal combinations, fragmented on; state: seeded configuration + traffic prefix then a random call (atomicity over prior states); runs: whole PDUs driven to completion under constant-7, constant-8 and random >=7 byte schedules; maxreuse: re-use limits 1,2,3,254,255,0 x N+1 or 600 packets with one label (encap and encap_ext), then PDUs at the 16-bit total-length boundary for an empty and a full label; bigfrag: continuation calls with 4080..=4100 bytes remaining x buffers {4090,4096..4101,5000,8000,65536,70000} at four context positions. Every call is one evaluation; a call is non-trivial when the oracle of this property had something to judge (see per-property note); fingerprint = hash(function, PDU length, buffer length, label case, context position, outcome class).";
+pub const RULE: &str = "lattice: every (PDU size, buffer size) pair of the size lattice L x L (L = 0..16, 25..27, 100, 255..257, 1000, 4080..4100, 8190..8195, 16384, 32767, 32768, 65520..65540, 69999, 70000) x 6 label cases (6-byte, 3-byte, broadcast, explicit re-use, 6-byte primed, 3-byte primed) for the first call, then up to 20 continuation calls with buffers drawn from L, 0..32 and exact-fit sizes; fragpos: encap_frag on every context position 0..=len+2 of PDUs of 0..=64 bytes x every buffer size 0..=40 and {100,4097,4098,70000}, and boundary positions of lattice-sized PDUs x L; ptypes: protocol types (all 65536 in thorough) x labels incl. zero and explicit re-use; ext: seeded extension chains of 0..4 entries incl. illegal combinations, fragmented on; state: seeded configuration + traffic prefix then a random call (atomicity over prior states); runs: whole PDUs driven to completion under constant-7, constant-8 and random >=7 byte schedules; maxreuse: re-use limits 1,2,3,254,255,0 x N+1 or 600 packets with one label (encap and encap_ext), then PDUs at the 16-bit total-length boundary for an empty and a full label; samectx: one hand-built context and buffer length offered for PDUs of 23 different lengths in a row (an answer must not depend on the previous question); statefulcrc: an encapsulator with a CRC calculator that counts its calls and salts its result: after each refused call (every reason the property names) the encapsulator incl. its calculator is unchanged and the next fragmenting call equals that of a twin that never saw the refused call; bigfrag: continuation calls with 4080..=4100 bytes remaining x buffers {4090,4096..4101,5000,8000,65536,70000} at four context positions. Every call is one evaluation; a call is non-trivial when the oracle of this property had something to judge (see per-property note); fingerprint = hash(function, PDU length, buffer length, label case, context position, outcome class).";
 
 fn fp(func: Func, plen: usize, blen: usize, lk: &str, pos: usize, outc: u64) -> u64 {
     mix(mix(mix(func as u64 + 1, plen as u64), mix(blen as u64, fnv(lk.as_bytes()))), mix(pos as u64, outc))
@@ -433,6 +435,113 @@ pub fn run_key(cx: &Cx, mask: u32, gen: &str, key: u64, rep: &mut Report) {
             rep.count_n("runs.calls", calls as u64);
             if key < 2 {
                 rep.sample(|| format!("runs: pdu {}B, first buffer {}B, schedule mode {} -> completed after {} continuation calls (bound {})", plen, first, mode, calls, remaining0 + 1));
+            }
+        }
+        "samectx" => {
+            // the SAME hand-built context and buffer length offered for PDUs of different lengths, one call after
+            // the other on one thread: an answer must depend on the PDU it is asked about (previews included)
+            let pos = [0usize, 1, 5, 40, 100, 4000, 4090, 65000][(key % 8) as usize];
+            let bl = [7usize, 8, 13, 20, 100, 4096, 4097, 70000][(key / 8) as usize];
+            let s0 = &mut Sender::new(0x33);
+            let ctx = ContextFrag::new(7, 0x1122_3344, pos as u16);
+            let lens: Vec<usize> = [0usize, 1, 2, 3, 4, 5, 6, 7, 8, 20, 90, 4000, 4086, 4090, 4091, 4092, 4093, 4094, 4096, 65535, 65536].iter().map(|d| pos + d).chain([pos.saturating_sub(1), pos / 2]).collect();
+            let big = gen_pdu(&mut rng, 131072, 1);
+            for round in 0..2 {
+                for &pl in &lens {
+                    let pl = if round == 0 { pl } else { lens[(pl * 7 + 3) % lens.len()] };
+                    let pdu = &big[..pl.min(big.len())];
+                    let spec = CallSpec { func: Func::Frag, pdu, frag_id: 7, ptype: 0x0800, label: Label::Broadcast, exts: None, ctx: Some(ctx), buf_len: bl };
+                    let o = s0.call(&spec, mask, rep, &replay);
+                    note(rep, mask, &spec, &o);
+                }
+            }
+        }
+        "statefulcrc" => {
+            // a CRC calculator with state (it counts its calls and salts its result with the count): after a call
+            // that returns Err the encapsulator, calculator included, must be what it was, and the next packet must
+            // be what a twin that never saw the failed call produces
+            use crate::mon::guard;
+            use dvb_gse_rust::gse_encap::{EncapMetadata, Encapsulator};
+            use dvb_gse_rust::header_extension::Extension;
+            #[derive(Clone, Debug, PartialEq)]
+            struct CountingCrc {
+                calls: std::cell::Cell<u32>,
+            }
+            impl dvb_gse_rust::crc::CrcCalculator for CountingCrc {
+                fn calculate_crc32(&self, pdu: &[u8], protocol_type: u16, total_length: u16, label: &[u8]) -> u32 {
+                    let n = self.calls.get();
+                    self.calls.set(n + 1);
+                    dvb_gse_rust::crc::DefaultCrc {}.calculate_crc32(pdu, protocol_type, total_length, label) ^ n.wrapping_mul(0x9E37_79B9)
+                }
+            }
+            let mut enc = Encapsulator::new(CountingCrc { calls: std::cell::Cell::new(0) });
+            let big = gen_pdu(&mut rng, 70000, 0);
+            let n = 3 + rng.below(10);
+            for step in 0..n {
+                let lkind = [0usize, 2, 4][rng.below(3)];
+                let label = gen_label(&mut rng, lkind);
+                // a call that must fail, for each reason the property names plus "buffer too small"
+                let (plen, bl, ptype, lab, ext): (usize, usize, u16, Label, bool) = match rng.below(6) {
+                    0 => (rng.range(65530, 70000), rng.range(13, 5000), 0x0800, label, rng.chance(1, 2)),
+                    1 => (rng.range(0, 5000), rng.below(8), 0x0800, label, rng.chance(1, 2)),
+                    2 => (rng.range(0, 5000), rng.range(13, 5000), rng.range(0x100, 0x5FF) as u16, label, rng.chance(1, 2)),
+                    3 => (rng.range(0, 5000), rng.range(13, 5000), 0x0800, Label::SixBytesLabel([0; 6]), rng.chance(1, 2)),
+                    4 => (rng.range(4100, 9000), 7 + rng.below(6), 0x0800, label, false),
+                    _ => (rng.range(65530, 70000), rng.below(12), 0x0800, label, false),
+                };
+                let snapshot = enc.clone();
+                let mut b = vec![0u8; bl];
+                rep.eval();
+                let r = guard(|| {
+                    if ext {
+                        enc.encap_ext(&big[..plen], 3, EncapMetadata::new(ptype, lab), &mut b, vec![Extension::new(0x0155, &[]).unwrap()])
+                    } else {
+                        enc.encap(&big[..plen], 3, EncapMetadata::new(ptype, lab), &mut b)
+                    }
+                });
+                let cls = format!("{}:{}", if ext { "encap_ext" } else { "encap" }, label_kind(&lab));
+                match r {
+                    Err(p) => {
+                        if mask & O_C09 != 0 {
+                            rep.violation("C09", format!("panic:{}:stateful-crc:{}", crate::mon::panic_class(&p), cls), || format!("call with a stateful CRC calculator panicked: {}", p), &replay);
+                        }
+                        return;
+                    }
+                    Ok(Err(e)) => {
+                        rep.count("statefulcrc.err");
+                        if enc != snapshot && mask & O_C09 != 0 {
+                            rep.violation("C09", format!("err-state-changed:stateful-crc:{}", cls), || format!("{}(pdu {}B, type {:#06x}, label {}, buffer {}B) returned {:?} but the encapsulator (with its CRC calculator) changed: before {:?}, after {:?}", if ext { "encap_ext" } else { "encap" }, plen, ptype, label_str(&lab), bl, e, snapshot, enc), &replay);
+                            return;
+                        }
+                        rep.nontrivial(mix(0x5CF, mix(key, step as u64)));
+                    }
+                    Ok(Ok(_)) => {
+                        // (e.g. a tiny PDU with a broadcast label fits 7 bytes): not a refused call, nothing to compare
+                        rep.count("statefulcrc.call-accepted");
+                        continue;
+                    }
+                }
+                // a fragmenting call in between (uses the calculator), compared with a twin built from the snapshot
+                if rng.chance(1, 2) {
+                    let pl = rng.range(100, 3000);
+                    let bl2 = 13 + rng.below(60);
+                    let mut twin = snapshot.clone();
+                    let mut b1 = vec![0u8; bl2];
+                    let mut b2 = vec![0u8; bl2];
+                    let l2 = gen_label(&mut rng, 2);
+                    rep.eval();
+                    let r1 = guard(|| enc.encap(&big[..pl], 4, EncapMetadata::new(0x0800, l2), &mut b1));
+                    let r2 = guard(|| twin.encap(&big[..pl], 4, EncapMetadata::new(0x0800, l2), &mut b2));
+                    let same = match (&r1, &r2) {
+                        (Ok(Ok(a)), Ok(Ok(b))) => format!("{:?}", a) == format!("{:?}", b) && b1 == b2,
+                        (Ok(Err(a)), Ok(Err(b))) => format!("{:?}", a) == format!("{:?}", b),
+                        _ => false,
+                    };
+                    if !same && mask & O_C09 != 0 {
+                        rep.violation("C09", format!("next-packet-differs-after-failed-call:stateful-crc:{}", cls), || format!("after a refused {} call, encap(pdu {}B, buffer {}B) = {:?}, a twin that never saw the refused call = {:?}", cls, pl, bl2, r1.as_ref().map(|x| x.as_ref().map(|s| format!("{:?}", s))), r2.as_ref().map(|x| x.as_ref().map(|s| format!("{:?}", s)))), &replay);
+                        return;
+                    }
+                }
             }
         }
         _ => {}
